@@ -9,6 +9,7 @@ for d in sorted(glob.glob('/verif/seeded/*/')):
     i = os.path.basename(d.rstrip('/'))
     v = m.get('verif', {})
     caught = "; ".join("%s: %s (%s)" % (p, "CAUGHT" if r.get('caught') else "missed", ", ".join(r.get('classes', [])) or "-") for p, r in sorted(v.items())) or "not run yet"
+    if m.get('history'): caught += " - " + m['history']
     rows.append((i, m.get('property', '?'), (m.get('summary', '') or '').replace('\n', ' ')[:260], (m.get('needs_to_manifest', '') or '').replace('\n', ' ')[:220], caught))
 with open('/verif/seeded/README.md', 'w') as f:
     f.write("# Seeded changes\n\nEach directory holds a change to open-telemetry/opentelemetry-cpp written by an independent sub-agent that was given only the text of one property and a scratch worktree (nothing from /verif): `patch.diff`, the agent's demonstration (`demo*`, `demo_build.sh`: fails with the change, passes without it) and `meta.json` (what it breaks, what it needs to manifest, what was run). Every change was confirmed with `selftest/confirm_seeded.sh` (applies, builds, the repository's suite shows no failure of a stable test, demo fails with / passes without) and then run against the property's check with `selftest/seeded_check.sh` (scratch copy of /repo under /tmp, removed afterwards). None of these changes is ever committed to /repo.\n\n")
